@@ -748,6 +748,38 @@ pub fn exec(c: &BudgetCase, st: &mut Stats) -> Vec<Viol> {
                 } else {
                     out.push(mk("report-callback-count", format!("from_multiple: {} callback invocations", r.reports.len()), vec![]));
                 }
+                // the alias/anchor ratio of the whole stream (whole-content enforcement looks at it once, at the
+                // end): a stream within its ratio passes whatever the ratio of a prefix of its documents is
+                {
+                    let (a, an) = (ms.total.aliases, ms.total.anchors);
+                    if a > 0 && an > 0 {
+                        for (mult, expect_breach) in [(a.div_ceil(an), false), ((a - 1) / an, true)] {
+                            #[allow(deprecated)]
+                            let b = {
+                                let mut b = unlimited();
+                                b.enforce_alias_anchor_ratio = true;
+                                b.alias_anchor_min_aliases = 1;
+                                b.alias_anchor_ratio_multiplier = mult;
+                                b
+                            };
+                            if let Some(r) = run_str(&stext, b, true) {
+                                st.evals += 1;
+                                st.bump("ratio_heuristic_stream_runs");
+                                let breached = matches!(&r.result, Err(x) if x == "AliasAnchorRatio");
+                                if breached != expect_breach || (!breached && r.result.is_err()) {
+                                    out.push(mk(
+                                        "ratio-heuristic",
+                                        format!(
+                                            "from_multiple over the stream: aliases {a}, anchors {an} in total, multiplier {mult}: result {:?}, expected breach = {expect_breach}",
+                                            r.result
+                                        ),
+                                        vec![],
+                                    ));
+                                }
+                            }
+                        }
+                    }
+                }
                 // document-count threshold
                 let nd = ms.total.documents;
                 for (limit, must_pass) in [(nd, true), (nd - 1, false)] {
@@ -848,8 +880,20 @@ pub fn exec(c: &BudgetCase, st: &mut Stats) -> Vec<Viol> {
                 // events: the per-document figure has no crisp definition (stream markers), differential only
                 let b = with_limit(cn, limit);
                 let Some((a_items, a_term, _)) = run_iter(&alone_text, b.clone(), &c.chunking, 6) else { continue };
-                let Some((f_items, f_term, fr)) = run_iter(&full_text, b, &c.chunking, full.len() + 4) else { continue };
+                let Some((f_items, f_term, fr, f_reps)) = run_iter_t::<Json>(&full_text, b, &c.chunking, full.len() + 4) else { continue };
                 st.evals += 2;
+                // the report counts the documents read, failed ones (and the ones entered through recovery) included
+                if f_term && f_items.len() == full.len() && f_reps.len() == 1 && f_reps[0].documents != full.len() {
+                    out.push(mk(
+                        "report-differs-from-model",
+                        format!(
+                            "{cn:?} limit {limit}: read_with_options yields {f_items:?} for a stream of {} documents, the report says {} documents",
+                            full.len(),
+                            f_reps[0].documents
+                        ),
+                        vec![cn],
+                    ));
+                }
                 st.behaviours.insert(fr.trace_digest());
                 st.nontrivial.insert(fr.trace_digest() ^ (limit as u64).wrapping_mul(0x9E37_79B9));
                 st.add("steps.next_calls", (a_items.len() + f_items.len()) as u64);
